@@ -28,6 +28,18 @@ def run(ctx: Ctx):
         rows = ctx.rng.randint(1, 5)
         X = [[M.rnd_point(ctx.rng) for _ in range(width)] for _ in range(rows)]
         jobs.append({"defn": d, "k": [None, 4.0, 1.0][i % 3], "max_dt_sec": [0.1, 0.02, 0.5, 0.1][i % 4], "decl": {"container": "set", "perm_seed": i}, "X": X})
+    # appended (stream above unchanged): one single-reading sensor and no control, so that the data is one column and may be
+    # given as the flat sequence of its samples
+    for i in range(2 if ctx.tier == "quick" else 12):
+        d = M.gen_linear_definition(ctx.rng, singular=False)
+        while d["control"]:
+            d = M.gen_linear_definition(ctx.rng, singular=False)
+        k0 = sorted(d["sensors"])[0]
+        r0 = sorted(d["sensors"][k0])[0]
+        d["sensors"] = {k0: {r0: d["sensors"][k0][r0]}}
+        d["sensor_noise"] = {k0: {r0: d["sensor_noise"][k0][r0]}}
+        X = [[M.rnd_point(ctx.rng)] for _ in range(ctx.rng.randint(3, 7))]
+        jobs.append({"defn": d, "k": [None, 4.0][i % 2], "max_dt_sec": 0.1, "decl": {"container": "set", "perm_seed": i}, "X": X})
     res = ctx.run_impl_jobs("adapter_py.py", jobs)
     rows_txt = []
     dist = {"estimators": n, "rows": 0, "sensors": {}, "controls": {}}
@@ -47,6 +59,10 @@ def run(ctx: Ctx):
         if len(T) != len(B) or any(len(a) != len(b) or any(abs(x - y) > 1e-12 * max(1.0, abs(y)) for x, y in zip(a, b)) for a, b in zip(T, B)):
             ctx.violation("transform differs from running the exported filter by hand (predict with the fixed step, update sensors in key order, NIS from the recorded innovation)",
                           dict(rep, transform=T, by_hand=B), key="transform-vs-by-hand")
+        for form, Tf in r.get("input_forms", {}).items():
+            if isinstance(Tf, dict) or len(Tf) != len(T) or any(len(a) != len(b) or any(x != y for x, y in zip(a, b)) for a, b in zip(Tf, T)):
+                ctx.violation(f"transform of the same data given as {form} returns {Tf if isinstance(Tf, dict) else str(Tf)[:200]}, as a matrix it returns {str(T)[:200]}",
+                              dict(rep, form=form, observed=Tf, as_matrix=T), key=f"input-form:{form}")
         flat = [v for row in T for v in row]
         if any(v < 0 for v in flat):
             ctx.violation("transform returned a negative normalised innovation squared", dict(rep, transform=T), key="negative-nis")
